@@ -58,7 +58,10 @@ def enc(v, _depth=0):
     if tn in ("State", "InstanceState", "AnyState"):
         return {"$s": v.id}
     if tn == "EventData":
-        return "$event_data"
+        try:
+            return {"$ed": sorted(v.trigger_data.kwargs)}
+        except Exception:
+            return "$event_data"
     if tn == "Transition":
         return {"$t": [v.source.id if v.source is not None else None, v.target.id, str(v.event)]}
     try:
